@@ -7,6 +7,7 @@
    The proximal operators themselves are C05's (Model/Prox.v); here they are *arguments* (oracles) of
    update_weights, exactly like the optimiser step.  No proofs in this file. *)
 From Coq Require Import List Bool Arith.
+From Coq Require String.
 From GV Require Import Common.Num Model.Forward.
 Import ListNotations.
 
@@ -27,6 +28,26 @@ Fixpoint n_selected (d K : nat) (W : mat) : nat :=
   match d with O => 0 | S m => n_selected m K W + (if selected K W m then 1 else 0) end.
 (* _group_lasso_penalty:  np.linalg.norm(self.W_, axis=1, ord=2).sum() *)
 Definition group_lasso_penalty (d K : nat) (W : mat) : T := bsum o d (row_norm K W).
+
+(* ---- numpy vocabulary of the one-line methods, used by the regenerated definitions of Gen/SelectionRules.v ---- *)
+(* np.linalg.norm(A, axis=1, ord=2) of an (r x ncols) matrix: one value per row *)
+Definition np_norm_axis1 (ncols : nat) (A : mat) : nat -> T :=
+  fun j => nsqrt o (bsum o ncols (fun k => nmul o (A j k) (A j k))).
+(* np.linalg.norm(A, axis=0, ord=2) of an (nrows x c) matrix: one value per column *)
+Definition np_norm_axis0 (nrows : nat) (A : mat) : nat -> T :=
+  fun k => nsqrt o (bsum o nrows (fun j => nmul o (A j k) (A j k))).
+(* v != 0, v > 0, v >= 0, v == 0 : element-wise tests against the literal 0 *)
+Definition np_ne0 (v : nat -> T) : nat -> bool := fun j => negb (neqb o (v j) (n0 o)).
+Definition np_gt0 (v : nat -> T) : nat -> bool := fun j => nltb o (n0 o) (v j).
+Definition np_ge0 (v : nat -> T) : nat -> bool := fun j => nleb o (n0 o) (v j).
+Definition np_eq0 (v : nat -> T) : nat -> bool := fun j => neqb o (v j) (n0 o).
+(* np.nonzero(v)[0] of a vector of length n *)
+Definition np_nonzero0 (n : nat) (v : nat -> T) : list nat := filter (np_ne0 v) (seq 0 n).
+(* (<boolean vector of length n>).sum() *)
+Fixpoint np_count (n : nat) (b : nat -> bool) : nat :=
+  match n with O => 0 | S m => np_count m b + (if b m then 1 else 0) end.
+(* (<vector of length n>).sum() *)
+Definition np_sum (n : nat) (v : nat -> T) : T := bsum o n v.
 
 (* ---- the learning rate _update_weights reads: self.optimiser_.learning_rate, *after* update_params ---- *)
 Fixpoint npow (x : T) (t : nat) : T := match t with O => n1 o | S m => nmul o x (npow x m) end.
@@ -121,4 +142,19 @@ Definition fit_groups (groups : option (list (list nat))) (d : nat) : option (op
   | None => Some None
   | Some gs => match check_groups gs d with None => None | Some r => Some (Some r) end
   end.
+
+(* ---- the sparse fit as the regenerated rules describe it (Gen/SelectionRules.v): which calls in which order, which
+   hyper-parameter goes to check_groups together with which entry of X.shape, which attribute receives the result ---- *)
+Record fit_rules := {
+  fr_steps : list String.string;        (* the statements of fit, in order *)
+  fr_groups_source : String.string;     (* check_groups(self.<source>, ...) *)
+  fr_shape_axis : nat;           (* ... X.shape[<axis>]) *)
+  fr_groups_target : String.string;     (* self.<target> = ... *)
+  fr_min_samples : String.string        (* validate_data(..., ensure_min_samples=self.<attr>) *)
+}.
+(* the value written to the target attribute (outer None = ValueError), given the hyper-parameters that hold group
+   lists (read by name) and the shape of X *)
+Definition fit_groups_with (r : fit_rules) (hp : String.string -> option (list (list nat))) (shape : nat -> nat)
+  : option (option (list (list nat))) :=
+  fit_groups (hp (fr_groups_source r)) (shape (fr_shape_axis r)).
 (* EXTRACT: row_norm selected selection n_selected group_lasso_penalty npow adam_lr sgd_lr prox_threshold lin_params mlp_params update_weights_linear update_weights_mlp train check_groups complete_groups fit_groups *)
